@@ -21,6 +21,9 @@ def gen_args(rng, count, dist):
         return [bytes([97 + (i % 26)]) for i in range(count)]
     if dist == "2":
         return [b"%c%c" % (97 + i % 26, 97 + (i // 26) % 26) for i in range(count)]
+    if dist == "utf8-200":
+        # 100 two-byte characters per argument: byte cost is twice the character count
+        return [("%04d" % (i % 10000) + "é" * 98).encode() for i in range(count)]
     if dist == "7":
         return [b"%06d" % (i % 1000000) for i in range(count)]
     if dist == "10":
@@ -74,6 +77,13 @@ def grid(ctx, rng):
         point("60k x 1 byte -s 100000, 512KiB stack", 60000, "1", 1, 512 * KIB, opts=["-s", "100000"]),
         point("one 200000-byte arg among small with -s 500000", 300, "10", 1, 8 * MIB, opts=["-s", "500000"], big=(7, 200000)),
         point("one 131072-byte arg with -s 1500000 -n 100", 300, "10", 1, 8 * MIB, opts=["-s", "1500000", "-n", "100"], big=(150, MAX_ARG_STRLEN)),
+        # multi-byte arguments: limits are in bytes, not characters
+        point("30k x 100 two-byte characters, 8MiB", 30000, "utf8-200", 1, 8 * MIB),
+        point("one argument of 100000 two-byte characters (200000 bytes) among small", 300, "10", 1, 8 * MIB, big=(9, "utf8:100000")),
+        # finite stack limits above 24MiB: the kernel still grants at most 6MiB
+        point("700k x 10 bytes, finite 64MiB stack (more than 6MiB of arguments)", 700000, "10", 1, 64 * MIB),
+        point("700k x 10 bytes, finite 1GiB stack", 700000, "10", 1, 1024 * MIB),
+        point("700k x 10 bytes, finite 32MiB stack, 4000 tiny environment variables", 700000, "10", 1, 32 * MIB, env_tiny=4000),
         # environments made of many tiny variables (pointer cost dominates)
         point("400k x 7 bytes, 4000 tiny environment variables, 8MiB", 400000, "7", 1, 8 * MIB, env_tiny=4000),
         point("100k x 2 bytes, 20000 tiny environment variables, 8MiB", 100000, "2", 1, 8 * MIB, env_tiny=20000),
@@ -114,7 +124,10 @@ def run_point(job):
         big_idx = None
         if p["big"]:
             big_idx, big_len = p["big"]
-            args[big_idx] = b"B" * big_len
+            if isinstance(big_len, str) and big_len.startswith("utf8:"):
+                args[big_idx] = ("é" * int(big_len[5:])).encode()
+            else:
+                args[big_idx] = b"B" * big_len
         sep = b"\0" if p["mode"] == "-0" else b"\n"
         data = sep.join(args) + sep
         env = common.clean_env()
@@ -127,6 +140,15 @@ def run_point(job):
             i += 1
         for j in range(p.get("env_tiny", 0)):
             env["T%d" % j] = "1"
+        # the environment alone must leave room to start xargs at all (otherwise nothing can be observed)
+        kl = max(min(6 * MIB, (p["stack"] if p["stack"] >= 0 else 1 << 62) // 4), 128 * KIB)
+        while sum(len(k_) + len(v_) + 2 + 8 for k_, v_ in env.items()) > kl // 2:
+            victims = [k_ for k_ in env if k_.startswith("T") and k_[1:].isdigit()][:2000] or [k_ for k_ in env if k_.startswith("VERIF_PAD")][:1]
+            if not victims:
+                break
+            for v_ in victims:
+                del env[v_]
+            st.inc("environment_trimmed_to_fit_budget")
         log = os.path.join(wd, "rec.log")
         env.update({"VERIF_REC_LOG": log, "VERIF_REC_MODE": "compact"})
         slog = os.path.join(wd, "strace.log")
